@@ -4,8 +4,8 @@
    are not installed).  Tables and trigger sets = Gen/Tables.v, regenerated from the source on
    every run; every "…_table" obligation below is re-checked by vm_compute against them.
    Proved for all byte strings (after the format's sanitizer, which only drops TAB/CR/LF):
-     bash   "…" branch, backslash branch for values starting with ~, unquoted branch (for values
-            without `?`; the `?` case is REFUTED: known finding C03-bash-glob-q);
+     bash   "…" branch, backslash branch for values starting with ~, unquoted branch (`?` forces
+            quoting since fix d-series commit recorded as C03-bash-glob-q);
      zsh    default (unquoted) state through both layers (_describe un-escaping, then the lexer),
             with or without the separating blank, for values not starting with `=` (REFUTED for `=`);
      nushell quoted and bare forms, ~"…" form, with or without blank.
@@ -25,15 +25,11 @@ Proof. exact (fun s => bash_tilde_roundtrip _ s bash_escaping_table). Qed.
 Print Assumptions C03_bash_tilde.
 
 Theorem C03_bash_unquoted : forall wb s,
-  contains_any s (bash_requiresQuoting_chars ++ wb) = false -> ~ In (byte 63) s -> s <> [] ->
+  contains_any s (bash_requiresQuoting_chars ++ wb) = false -> s <> [] ->
   (forall c r, s = c :: r -> beq c c_hash = false) ->
   read_bash s = Some s.
-Proof. exact (fun wb s => bash_unquoted_roundtrip _ wb s bash_unq_chars). Qed.
+Proof. exact (fun wb s H => bash_unquoted_roundtrip _ wb s bash_unq_chars H (no_question wb s H)). Qed.
 Print Assumptions C03_bash_unquoted.
-
-Theorem C03_bash_unquoted_refuted : exists s, bash_quote None s = s /\ read_bash s = None.
-Proof. exact bash_unquoted_refuted. Qed.
-Print Assumptions C03_bash_unquoted_refuted.
 
 Theorem C03_zsh_default : forall s blank,
   no3 s -> s <> [] -> (forall c r, s = c :: r -> beq c c_eq = false) ->
